@@ -892,6 +892,7 @@ pub(crate) fn run(sc: &ExtScenario) -> Outcome {
         conns: sc.conns.iter().map(|c| Cell { cause: c.end.cause(), phase: c.phase }).collect(),
         shared_token: false,
         reverse_end: sc.reverse_end,
+        rewrite: false,
     };
     let rt = tokio::runtime::Builder::new_current_thread().enable_time().build().expect("runtime");
     let mut conns: Vec<MemConn> = Vec::new();
